@@ -1,6 +1,6 @@
 (* C17 — the property-level statements, derived from the invariants Inv = InvA /\ InvB. *)
 From Coq Require Import ZArith List Bool Lia.
-From SH Require Import Engine.Model Engine.Proofs Engine.ProofsAck.
+From SH Require Import Engine.Model Engine.Proofs Engine.ProofsAck Engine.ProofsRead.
 Import ListNotations.
 Open Scope Z_scope.
 
@@ -94,4 +94,32 @@ Lemma view_sees_only_binlogged m r ops :
 Proof.
   cbv zeta. destruct (db_is_prefix_of_binlog m r ops) as [_ (n & L & E & D)].
   exists n. rewrite E. simpl. repeat split; try assumption; lia.
+Qed.
+
+(* a read-only Do on a WaitCommit master, once acknowledged (returned at once or its wait channel closed), returned
+   the application of a prefix of the binlog that lies inside the committed, hence durable, part *)
+Lemma acked_read_saw_only_durable ops id o v :
+  let s := run (init WaitCommit false) ops in
+  In (TR id o v) (acked s) ->
+  (exists n, (n <= length (bl s))%nat /\ bsize (firstn n (bl s)) = o /\ applyl (firstn n (bl s)) kv0 = v) /\
+  o <= comm s <= durable s.
+Proof.
+  cbv zeta. intro Hin.
+  destruct (Inv3_run ops (init WaitCommit false) (Inv_init _ _) InvC_init) as [[IA [_ A]] (_ & _ & [_ AR] & _)].
+  set (s := run (init WaitCommit false) ops) in *.
+  pose proof (proj1 (Forall_forall _ _) A _ Hin) as P. simpl in P.
+  pose proof (proj1 (Forall_forall _ _) AR _ Hin) as Q. simpl in Q.
+  pose proof (ia_dur s IA). split; [exact P|lia].
+Qed.
+
+(* the ticket of a read records what the callback saw *)
+Lemma read_ticket_records_view s :
+  mode s = WaitCommit ->
+  let t := TR (nread s) (off (dbt s)) (kv (dbt s)) in
+  (waitq s = [] -> acked (do_read s) = acked s ++ [t]) /\
+  (waitq s <> [] -> waitq (do_read s) = waitq s ++ [(0, true, t)] /\ acked (do_read s) = acked s).
+Proof.
+  intro M. cbv zeta. unfold do_read. rewrite M. split; intro H.
+  - rewrite H. reflexivity.
+  - destruct (waitq s) eqn:E; [congruence|]. simpl. rewrite E. split; reflexivity.
 Qed.
